@@ -64,6 +64,8 @@ func C02(c *core.Ctx) {
 	ruleMultiSel(c, ruleSet("A-MAP", "A-TAG", "A-REQ", "A-NOEXTRA", "A-REJ"), 2, "allOf branch in two files")
 	c.Floor("families", c.Counts["members"], 600, "family members")
 	a := engb.New(c.Prog)
+	// the tag list decides which key each field is bound to: the CLI hands the generator the list the user wrote (B-FLAG)
+	emit(c, a.FlagWiring("main.main", "main.init$1", "generator.Config"))
 	emit(c, a.Layout())
 	emit(c, a.AddPropsBlock())
 	ruleSizedTable(c)
